@@ -48,6 +48,8 @@ class Eval:
         self._final_params = []
         self._cur_env = None
         self.loop_args = None     # optional: [element of the 1st for loop met, of the 2nd, ...] to specialise a loop body on one concrete element
+        self._alias_root = None
+        self.alias = {}           # local id bound by reference into another local -> (that local's id, path): in-place updates are written back
         self.effect_calls = None  # optional: short callee names whose calls are recorded in self.out as ('emit', name, args) with path conditions and loops
         self.closure_args = None  # optional: [args of the 1st closure met, args of the 2nd, ...] to specialise closures on concrete arguments
 
@@ -91,6 +93,8 @@ class Eval:
         k = p.get("p")
         if k == "Bind":
             self.names[p["id"]] = p["name"]
+            if self._alias_root is not None:
+                self.alias[p["id"]] = (self._alias_root, path)
             if term is None and default_param:
                 env[p["id"]] = ("param", p["name"])
             else:
@@ -266,6 +270,7 @@ class Eval:
                 root = self.root_local(e["l"])
                 if root is not None:
                     env[root] = ("upd", env.get(root, ("unknown", "unbound")), "assign-field:" + (hq.field_path(e["l"]) or "?"), (self.expr(e["r"], env, depth),))
+                    self.write_back(root, env)
             return
         if k == "AssignOp":
             l = strip(e["l"])
@@ -413,6 +418,30 @@ class Eval:
                 if r is not None:
                     out.append(r)
         return out
+
+    def mut_ref_root(self, e):
+        """local id L when e is `&mut L` (or L of type &mut T): bindings of a pattern matched against it alias parts of L"""
+        cur = e
+        while isinstance(cur, dict) and cur.get("k") in ("DropTemps", "Use", "Type"):
+            cur = cur["e"]
+        if isinstance(cur, dict) and cur.get("k") == "Ref" and cur.get("mut"):
+            inner = strip(cur["e"])
+            if inner.get("k") == "Path" and inner.get("res", {}).get("r") == "local":
+                return inner["res"]["id"]
+        if isinstance(cur, dict) and cur.get("k") == "Path" and cur.get("res", {}).get("r") == "local" and str(cur.get("ty", "")).startswith("&mut "):
+            return cur["res"]["id"]
+        return None
+
+    def write_back(self, root, env):
+        """root was updated in place; if it aliases a part of another local, that local now holds the updated part"""
+        seen = 0
+        while root in self.alias and seen < 4:
+            seen += 1
+            owner, path = self.alias[root]
+            if owner not in env:
+                return
+            env[owner] = set_at(env[owner], path, env[root])
+            root = owner
 
     def root_local(self, e):
         cur = strip(e)
@@ -595,7 +624,12 @@ class Eval:
             return ("if", c, t, f)
         if k == "Let":
             init = self.expr(e["init"], env, depth)
+            self._alias_root = self.mut_ref_root(e["init"])
             self.bind_pat(e["pat"], init, env)
+            self._alias_root = None
+            r = pat_vs_term(e["pat"], init) if isinstance(init, tuple) and init[:1] in (("ctor",), ("lit",)) else None
+            if r is not None:
+                return ("lit", r)
             return ("iflet", hq.pat_key(e["pat"]), init)
         if k in ("Array", "Tup"):
             return ("list", tuple(self.expr(x, env, depth) for x in e["es"]))
@@ -714,6 +748,7 @@ class Eval:
                 fp = hq.field_path(e["recv"])
                 mm = m if (fp is None or "." not in fp) else "%s@%s" % (m, fp.split(".", 1)[1])
                 env[root] = ("upd", env.get(root, ("unknown", "unbound")), mm, tuple(args[1:]))
+                self.write_back(root, env)
         return self.named_call(e, callee_generic(e), callee(e), args, depth)
 
     def conv(self, e, arg, depth):
@@ -976,6 +1011,19 @@ def subst(t, mapping):
         inner = {k: v for k, v in mapping.items() if k not in t[1] and not any(k in n.split("/") for n in t[1])}
         return ("closure", t[1], subst(t[2], inner))
     return tuple(subst(x, mapping) for x in t)
+
+
+def set_at(term, path, value):
+    """term with the part at `path` (as in ('proj', term, path)) replaced by value; literal constructors / tuples are rebuilt"""
+    if not path:
+        return value
+    head, f = path[0]
+    if isinstance(term, tuple) and term[:1] == ("ctor",) and term[1] == head:
+        return ("ctor", term[1], tuple((k, set_at(v, path[1:], value) if k == f else v) for k, v in term[2]))
+    if isinstance(term, tuple) and term[:1] == ("list",) and head == "tuple" and f.isdigit() and int(f) < len(term[1]):
+        i = int(f)
+        return ("list", tuple(set_at(v, path[1:], value) if j == i else v for j, v in enumerate(term[1])))
+    return ("upd", term, "set@" + ".".join("%s.%s" % hf for hf in path), (value,))
 
 
 def drop_never(t):
